@@ -152,7 +152,9 @@ def post_explore(ctx, res, pids, opts):
             # the space's own dtype is int64, but it also CONTAINS the same vector held in any other integer dtype
             # (MultiDiscrete.contains accepts them): every container of one vector decodes to the same action
             for dt in (np.uint8, np.int8, np.uint32):
-                if max(vec) < 127:
+                # only containers that can hold every bound of the space (an int8 array cannot even be compared with a
+                # dimension of 170 under NumPy 2's scalar rules): anything narrower is not a container of this space
+                if np.iinfo(dt).max >= max(int(x) for x in nvec):
                     a_dt = psp.get_action(np.array(vec, dtype=dt))
                     same = same and type(a_dt) is type(a) and (isinstance(a, NoOp) or action_fields(a_dt) == action_fields(a))
             if not np.array_equal(arr, np.array(vec)) or not same:
@@ -330,6 +332,7 @@ def replay(pid, rec):
     spec = rec["scenario"]
     spec = spec_from_json(spec) if "subnets" in spec else spec
     ctx = make_ctx(spec, rec["binding"])
-    res = explore(ctx, [])
+    from .sweep import replay_explore
+    res = replay_explore(ctx)
     post_explore(ctx, res, ["C11"], {})
     return [v for v in ctx.violations if v["kind"] == rec["kind"]] or ctx.violations
